@@ -469,11 +469,8 @@ func (c *converter) AppCall(calls []transpiler.AppCall, valueUsed bool) ([]strin
 		argsCopy := call.Args()
 
 		for j, arg := range argsCopy {
-			// If argument is a variable or contains whitespaces, quote it.
-			if strings.HasPrefix(arg, "$") || len(strings.Split(arg, " ")) > 1 {
-				arg = fmt.Sprintf("\"%s\"", arg)
-			}
-			argsCopy[j] = arg
+			// Quote every argument to pass it to the program unchanged (also empty strings, *, ;, #, ...).
+			argsCopy[j] = fmt.Sprintf("\"%s\"", arg)
 		}
 		space := ""
 
